@@ -333,13 +333,44 @@ pub fn exec_scripted(seed: u64) -> Case {
             let (a, b2) = (tracked[i].clone(), tracked[j].clone());
             eg.union(&a, &b2);
         }
+        // stream `symgrow` (a third of the seeds): a leaf with 3-5 slots whose symmetry group is enlarged by one
+        // transposition per round, and by nothing else — a round that turns a group of order 2 into one of order 6 has
+        // made progress although no class, no slot and no *symmetric class* was gained or lost
+        let symgrow = seed % 3 == 0;
+        let leaf_slots: Vec<u32> = vec![2, 4, 8, 12, 16];
+        let nslots = rng.range(3, 5);
+        let leaf = if symgrow {
+            let v = match nslots { 3 => 8, 4 => 9, _ => 20 };
+            let t = ATerm { v, fields: leaf_slots[..nslots].iter().map(|c| CField::Slot(*c)).collect(), children: vec![] };
+            Some(eg.add_expr(to_recexpr::<Main>(&t)))
+        } else {
+            None
+        };
         let mut steps = Vec::new();
         let mut outs = Vec::new();
-        for _round in 0..rng.range(2, 5) {
+        for _round in 0..(if symgrow { rng.range(3, 6) } else { rng.range(2, 5) }) {
             // the script of this round is fixed before the call (the appliers only replay it)
             let nrules = rng.range(1, 3);
             let mut rws: Vec<Rewrite<Main>> = Vec::new();
-            for _ in 0..nrules {
+            if let Some(l) = &leaf {
+                // one transposition of two argument positions of the leaf, asserted as a union by the only rule of the round
+                let (i, j) = (rng.below(nslots), rng.below(nslots));
+                let l = l.clone();
+                rws.push(
+                    RewriteT {
+                        searcher: Box::new(|_eg: &EGraph<Main>| ()),
+                        applier: Box::new(move |_: (), eg: &mut EGraph<Main>| {
+                            let keys: Vec<Slot> = l.m.iter().map(|(k, _)| k).collect();
+                            let mut vals: Vec<Slot> = l.m.iter().map(|(_, v)| v).collect();
+                            vals.swap(i, j);
+                            let r = AppliedId { id: l.id, m: keys.into_iter().zip(vals).collect() };
+                            eg.union(&l, &r);
+                        }),
+                    }
+                    .into(),
+                );
+            }
+            for _ in 0..(if symgrow { 0 } else { nrules }) {
                 let adds: Vec<ATerm> = (0..rng.range(0, 2)).map(|_| gen(&mut rng, 2)).collect();
                 let pairs: Vec<(usize, usize)> = (0..rng.range(0, 2)).map(|_| (rng.below(tracked.len() + adds.len()), rng.below(tracked.len() + adds.len()))).collect();
                 let tr = tracked.clone();
@@ -382,6 +413,9 @@ pub fn exec_scripted(seed: u64) -> Case {
     match r {
         Ok((steps, outs, mut tags)) => {
             tags.push(format!("run:scripted-seed-{seed}"));
+            if seed % 3 == 0 {
+                tags.push("stream:symgrow".into());
+            }
             Case { line: format!("prog {}", steps.join(";")), impl_out: outs.join(";"), nontrivial: true, tags }
         }
         Err(e) => Case { line: "prog ".into(), impl_out: format!("PANIC {e}"), nontrivial: true, tags: vec!["viol:panic".into(), format!("panic:{}", e.replace(',', " ")), format!("run:scripted-seed-{seed}")] },
